@@ -279,7 +279,7 @@ def case(ctx, rng, idx, state):
 if __name__ == "__main__":
     harness.main(
         PROP, "exploration", case, setup_fn=setup,
-        tiers=dict(quick=dict(cases=64, shards=8, time=200), thorough=dict(cases=1600, shards=16, time=1200)),
+        tiers=dict(quick=dict(cases=64, shards=8, time=900), thorough=dict(cases=1600, shards=16, time=3000)),
         rule="(a) random Hermitian models (1-4 WFs; Ham, +AA, +SS, +BB,CC), random k and G with |G|_inf<=3, all named quantities of evaluate_k plus orbital "
              "moment, and a path from k to k+G; (b) models with exact 2-, 3- and 4-fold degeneracies at every k (spin-doubled, 2-4 block copies, spin-doubled x2), calculators with default grouping / random degen_thresh / degen_Kramers, random gauge vs default "
              "gauge for evaluate_k quantities and for 3-6 integrating calculators (static, dynamic) plus a grid tabulator; non-trivial = the monitor "
